@@ -24,8 +24,22 @@ abbrev VTy := Nat
 
 /-! ### strings: the pieces of Go's `strings`/`strconv` that `dependencyNameLess` and `SetInput` use -/
 
-/-- strings.ToLower on ASCII -/
-def lower (s : Name) : Name := s.map Char.toLower
+/-- `unicode.ToLower` on the alphabet the model covers: ASCII, Latin-1 letters U+00C0–U+00DE (not ×), Greek capitals
+    U+0391–U+03A9, Cyrillic capitals U+0400–U+042F; every other character is left alone.  On names over
+    ASCII ∪ U+00C0–U+00FF ∪ Greek U+0391–U+03C9 without ς ∪ Cyrillic U+0400–U+045F this is Go's `strings.ToLower`, and
+    `lower a = lower b` is `strings.EqualFold a b` (outside that alphabet simple case folding has longer orbits —
+    ſ, K, ς, ϑ, µ … — which are NOT modelled; the `c12.less` lines draw names from exactly this alphabet). -/
+def lowerC (c : Char) : Char :=
+  let n := c.toNat
+  if 65 ≤ n ∧ n ≤ 90 then Char.ofNat (n + 32)
+  else if 192 ≤ n ∧ n ≤ 222 ∧ n ≠ 215 then Char.ofNat (n + 32)
+  else if 913 ≤ n ∧ n ≤ 937 ∧ n ≠ 930 then Char.ofNat (n + 32)
+  else if 1040 ≤ n ∧ n ≤ 1071 then Char.ofNat (n + 32)
+  else if 1024 ≤ n ∧ n ≤ 1039 then Char.ofNat (n + 80)
+  else c
+
+/-- strings.ToLower (see `lowerC` for the alphabet) -/
+def lower (s : Name) : Name := s.map lowerC
 
 /-- Go's `a < b` on strings (byte-wise lexicographic = code-point-wise for valid UTF-8) -/
 def strLt : Name → Name → Bool
